@@ -30,7 +30,7 @@ CLAIMED.update({
  "C06": dict(
     technique="deterministic simulation: tuning-knob flip -- two replicas (data_first_search on/off, set at class level or at run time) driven by the same seeded plan with leaf and structural faults, fail-fast and collecting; histories compared",
     level="seeded exploration of (declaration with aliases/alias_from/case-insensitivity/defaults/dependencies/no_input/mode/on_error, inherited fields re-declared or dropped by the class under test, an alias spelled like a method, class options or options given only at run time, earlier parses under other run-time options, input key spellings incl. one field under two spellings, leaf faults) plans, each executed under both knob values (class level or run time), fail-fast and collecting; verdict, parsed data, and the (error class, item) multiset must agree",
-    note="fail-fast with >=2 failing items: only 'both reject' is required (DESIGN 3.6); warnings not compared; samples, does not enumerate",
+    note="fail-fast with >=2 failing items: the first reported (class, item) agrees (DESIGN 3.6); warnings not compared; samples, does not enumerate",
     ref="3.6"),
  "C20": dict(
     technique="deterministic simulation: real threads under a baton scheduler (sys.settrace line pre-emption inside utype/), seeded schedules (uniform/targeted/quantum/PCT), linearizability against sequential twin worlds, schedule minimisation and replay",
